@@ -100,8 +100,14 @@ def eta_cases(ctx):
     for k in range(30 if ctx.quick else 300):
         n = ctx.rng.randint(0, 6)
         spikes = sorted(ctx.rng.sample(range(0, 40), min(n, 10)))
-        out.append(dict(spikes=[s / 4 for s in spikes], nfeat=ctx.rng.randint(2, 12), bs=ctx.rng.choice([0.5, 1.0]),
-                        win=ctx.rng.choice([1.0, 2.0]), ep=ctx.rng.choice([[[0, 10]], [[0, 3], [5, 10]], [[6, 10]]])))
+        # feature samples: a regular run from 0, or any subset of a 0.5 s grid (late first sample, gaps, none inside an epoch)
+        if k % 2 == 0:
+            ft = [float(i) for i in range(ctx.rng.randint(2, 12))]
+        else:
+            ft = [x / 2 for x in sorted(ctx.rng.sample(range(0, 24), ctx.rng.randint(1, 8)))]
+        out.append(dict(spikes=[s / 4 for s in spikes], ft=ft, bs=ctx.rng.choice([0.5, 1.0]),
+                        win=ctx.rng.choice([1.0, 2.0]),
+                        ep=ctx.rng.choice([[[0, 10]], [[0, 3], [5, 10]], [[6, 10]], [[0, 2], [3, 5], [6, 10]], [[0, 4.5], [5, 10]]])))
     return out
 
 
@@ -112,7 +118,7 @@ cases = json.load(open(sys.argv[1])); out = []
 for c in cases:
     try:
         g = nap.TsGroup({0: nap.Ts(np.array(c["spikes"]))}, time_support=nap.IntervalSet(0, 10))
-        feat = nap.Tsd(t=np.arange(c["nfeat"]) * 1.0, d=np.arange(c["nfeat"]) * 1.0 + 1, time_support=nap.IntervalSet(0, 12))
+        feat = nap.Tsd(t=np.array(c["ft"]), d=np.arange(len(c["ft"])) * 1.0 + 1, time_support=nap.IntervalSet(0, 12))
         ep = nap.IntervalSet(start=[e[0] for e in c["ep"]], end=[e[1] for e in c["ep"]])
         r = nap.compute_event_trigger_average(g, feat, c["bs"], (c["win"], c["win"]), ep)
         out.append(["ok", [None if np.isnan(v) else round(float(v), 9) for v in np.asarray(r.values).ravel()]])
